@@ -27,8 +27,18 @@ def listsJson (l : Lists) : Json :=
     ("string_parameters", jstrs l.stringParameters), ("string_constants", jstrs l.stringConstants),
     ("outputs", jstrs l.outputs)]
 
+def handleFlat (req : Json) : Except String Json := do
+  -- [{"inst": "c.", "derived": bool, "prefixes": [...]}] -> flat prefixes
+  let items ← (← getArr req "items").toList.mapM fun (j : Json) => do
+    let inst ← getStr j "inst"
+    let der ← getBool j "derived"
+    let pf ← (← getArr j "prefixes").toList.mapM (·.getStr?)
+    pure (jstrs (flatPrefixes inst (if der then .derived else .elementary) pf))
+  pure (Json.mkObj [("ok", true), ("prefixes", Json.arr items.toArray)])
+
 def handle (req : Json) : Except String Json := do
   let op ← getStr req "op"
+  if op == "flatprefixes" then return (← handleFlat req)
   let syms ← (← getArr req "symbols").toList.mapM parseSym
   let t ← parseNode (← getObj req "tree")
   match op with
